@@ -11,6 +11,7 @@ mod d_serve;
 mod d_conn;
 mod d_cors;
 mod d_wire;
+mod d_codec;
 
 fn main() {
     let args: Vec<String> = std::env::args().collect();
@@ -27,6 +28,7 @@ fn main() {
         "serve" => d_serve::run(&opts),
         "conn" => d_conn::run(&opts),
         "cors" => d_cors::run(&opts),
+        "codec" => d_codec::run(&opts),
         "wire-history" => d_wire::history(&opts),
         "wire-conc" => d_wire::conc(&opts),
         "wire-fs" => d_wire::fs(&opts),
